@@ -541,13 +541,46 @@ impl Ctx {
     }
 }
 
+// The function a name refers to. For an inherent method the generic definition is found
+// through the index when there is no function of exactly that name.
+fn lookup_callee<'a>(ctx: &'a Ctx, name: &str) -> Option<&'a core::Fn> {
+    ctx.orig_fns.get(name).or_else(|| {
+        parse_inherent_method_fn_name(name).and_then(|(base_type, method_name)| {
+            ctx.inherent_method_index
+                .get(&(base_type.to_string(), method_name.to_string()))
+                .and_then(|generic_fname| ctx.orig_fns.get(generic_fname))
+        })
+    })
+}
+
 // Transform an expression under a given substitution; queue any needed instances
 fn mono_expr(ctx: &mut Ctx, e: &core::Expr, s: &Subst) -> MonoExpr {
     match e.clone() {
-        core::Expr::EVar { name, ty } => MonoExpr::EVar {
-            name,
-            ty: subst_ty(&ty, s),
-        },
+        core::Expr::EVar { name, ty } => {
+            let new_ty = subst_ty(&ty, s);
+            // A generic top-level function used as a first-class value: specialise it here,
+            // exactly as the ECall case does for a callee.
+            if let Some(callee) = lookup_callee(ctx, &name)
+                && fn_is_generic(callee)
+            {
+                let generic_func_name = callee.name.clone();
+                let template = Ty::TFunc {
+                    params: callee.params.iter().map(|(_, t)| t.clone()).collect(),
+                    ret_ty: Box::new(callee.ret_ty.clone()),
+                };
+                let mut value_subst: Subst = IndexMap::new();
+                if unify(&template, &new_ty, &mut value_subst).is_ok()
+                    && !value_subst.values().any(has_tparam)
+                {
+                    let spec = ctx.ensure_instance(&generic_func_name, value_subst);
+                    return MonoExpr::EVar {
+                        name: spec,
+                        ty: new_ty,
+                    };
+                }
+            }
+            MonoExpr::EVar { name, ty: new_ty }
+        }
         core::Expr::EPrim { value, ty } => {
             let ty = subst_ty(&ty, s);
             MonoExpr::EPrim { value, ty }
@@ -677,14 +710,7 @@ fn mono_expr(ctx: &mut Ctx, e: &core::Expr, s: &Subst) -> MonoExpr {
 
             // If function is not in current file (runtime/built-in), leave as is
             // For inherent methods, try to find generic version if exact match fails
-            let callee_opt = ctx.orig_fns.get(func_name).or_else(|| {
-                // Use index to find generic inherent method
-                parse_inherent_method_fn_name(func_name).and_then(|(base_type, method_name)| {
-                    ctx.inherent_method_index
-                        .get(&(base_type.to_string(), method_name.to_string()))
-                        .and_then(|generic_fname| ctx.orig_fns.get(generic_fname))
-                })
-            });
+            let callee_opt = lookup_callee(ctx, func_name);
 
             let Some(callee) = callee_opt else {
                 return MonoExpr::ECall {
